@@ -234,6 +234,8 @@ struct Extractor {
                 E = B->getSubExpr();
             else if (auto* S = dyn_cast<SubstNonTypeTemplateParmExpr>(E))
                 E = S->getReplacement();
+            else if (auto* RW = dyn_cast<CXXRewrittenBinaryOperator>(E))
+                E = RW->getSemanticForm();
             else if (auto* I = dyn_cast<ImplicitCastExpr>(E)) {
                 switch (I->getCastKind()) {
                 case CK_IntegralCast:
@@ -296,6 +298,8 @@ struct Extractor {
                         else if (auto* SN =
                                      dyn_cast<SubstNonTypeTemplateParmExpr>(W))
                             N = SN->getReplacement();
+                        else if (auto* RW = dyn_cast<CXXRewrittenBinaryOperator>(W))
+                            N = RW->getSemanticForm();
                         else if (auto* I = dyn_cast<ImplicitCastExpr>(W))
                             N = I->getSubExpr();
                         else if (auto* C = dyn_cast<CallExpr>(W))
